@@ -1007,3 +1007,22 @@ Proof.
   split; [vm_compute; reflexivity|]. split; [vm_compute; reflexivity|]. split; [vm_compute; reflexivity|].
   split; vm_compute; reflexivity.
 Qed.
+
+(* ================================================================================================== *)
+(* non-vacuity examples added after the reviewer's audit (Properties/C16_nv.v, 2026-10-01)         *)
+(* ================================================================================================== *)
+
+(* ==== non-vacuity instance obtained BY APPLYING the theorem above (added after review) ================== *)
+
+(* C16_overwrite: overwriting an existing file that shares keys with the new dict (nested, a list in the way), overwriting
+   a missing file, appending to a missing file; by contrast the append to the existing file gives something else *)
+Example C16_overwrite_nonvacuous :
+  spec_write (Some C16_ex.s) (C16_ex.d1, false) = Some C16_ex.d1 /\ spec_write None (C16_ex.d1, false) = Some C16_ex.d1 /\
+  spec_write None (C16_ex.d1, true) = Some C16_ex.d1 /\
+  spec_write (Some C16_ex.s) (C16_ex.d1, true) <> Some C16_ex.d1 /\
+  get_dpath (Dict C16_ex.s) [C16_ex.ka; C16_ex.kb] = Some C16_ex.one /\ get_dpath (Dict C16_ex.d1) [C16_ex.ka; C16_ex.kb] = Some C16_ex.two.
+Proof.
+  refine (conj (proj1 (C16_overwrite (Some C16_ex.s) C16_ex.d1)) (conj (proj1 (C16_overwrite None C16_ex.d1))
+         (conj (proj2 (C16_overwrite None C16_ex.d1)) _))).
+  split; [vm_compute; discriminate|]. split; vm_compute; reflexivity.
+Qed.
